@@ -29,3 +29,5 @@ def run(F, rep):
     rep.run(lemmas.kmer_iter_e2e_lemmas, F, rep, "L-iter")
     for ty in common.kmer_type_names(F):
         rep.run(lemmas.kmer_default_lemmas, F, rep, ty, which={"from_bytes", "from_ascii", "bulk"}, rule="L-default")
+    # provided methods of the k-mer iterators that the crate overrides (fold, count, last, nth …) must agree with next()
+    rep.run(dt_seq.kmer_iter_override_table, F, rep, "C13.2")
